@@ -82,11 +82,31 @@ def oob_polarity(ck, prog):
             if term[0] == "idx" and term[2][0] == "arg" and term[2][1] == 3 and term[1][0] == "field" and term[1][2] == "1":
                 masks.append((sb, term, tb, fb))
         problems = []
-        if len(preds) == 1 and not masks:
+        in_closure = None
+        if not preds and not masks:
+            # filter + fold / map / for_each form: the prediction sits in the closure consumed by an adaptor whose receiver is
+            # zip(trees, samples).filter(|(_, m)| !m[row])
+            stack = list(prog.closures_of.get(b.path, []))
+            while stack and in_closure is None:
+                c = stack.pop()
+                stack.extend(prog.closures_of.get(c.path, []))
+                cp = [(bb, t) for bb, t in c.calls() if t.get("f") and t["f"]["path"].endswith("::predict_for_row")]
+                if len(cp) != 1:
+                    continue
+                for bb, t in b.calls():
+                    args = [res.operand(a) for a in t["args"]]
+                    if any(a[0] == "agg" and a[1] == "closure:" + c.path for a in args) and args:
+                        ctree = Resolver(c).operand(cp[0][1]["args"][0])
+                        in_closure = (bb, args[0], ctree)
+        if in_closure is not None or (len(preds) == 1 and not masks):
             # filter form: zip(trees, samples).filter(|(_, m)| !m[row]) and the loop predicts with item.0
             from sa.prov import subst_upvars
-            pb, pt = preds[0]
-            tree = res.operand(pt["args"][0])
+            if in_closure is not None:
+                pb, recv, ctree = in_closure
+                tree = ("field", recv, "0") if (ctree[0] == "field" and ctree[2] == "0" and ctree[1][0] == "arg" and ctree[1][1] >= 2) else ctree
+            else:
+                pb, pt = preds[0]
+                tree = res.operand(pt["args"][0])
             fl = [s for s in subterms(tree) if s[0] == "call" and s[1].endswith("Iterator::filter") and len(s[2]) == 2]
             okf = False
             why = "no mask test found (neither a branch nor a filter on the zipped iterator)"
